@@ -1,0 +1,41 @@
+//go:build verif
+
+package client
+
+// Read-only accessors used by the verification harness (/verif).  Compiled only with -tags verif.
+
+// VerifNewSelector builds the stock selector for a mode (newSelector is unexported).
+func VerifNewSelector(mode SelectMode, servers map[string]string) Selector {
+	return newSelector(mode, servers)
+}
+
+// VerifNewGeoSelector builds the closest-server selector.
+func VerifNewGeoSelector(servers map[string]string, latitude, longitude float64) Selector {
+	return newGeoSelector(servers, latitude, longitude)
+}
+
+// VerifSelectorOrder returns the server slice of a stock selector in the order the
+// implementation built it (Go map iteration order is not reproducible).
+func VerifSelectorOrder(s Selector) []string {
+	switch v := s.(type) {
+	case *randomSelector:
+		return append([]string(nil), v.servers...)
+	case *roundRobinSelector:
+		return append([]string(nil), v.servers...)
+	case *weightedRoundRobinSelector:
+		out := make([]string, 0, len(v.servers))
+		for _, w := range v.servers {
+			out = append(out, w.Server)
+		}
+		return out
+	case *geoSelector:
+		out := make([]string, 0, len(v.servers))
+		for _, g := range v.servers {
+			out = append(out, g.Server)
+		}
+		return out
+	case *consistentHashSelector:
+		return append([]string(nil), v.servers...)
+	}
+	return nil
+}
